@@ -1,7 +1,7 @@
 ------------------------------- MODULE MCSD -------------------------------
 (* Model-checking wrapper of SD: initial state, bounded parameter choices. *)
 EXTENDS SD
-CONSTANTS PI, PC, PCS, PFS, PMIN, PPRICE, FUND, GAUGE0, H0, Prices, MaxFiles, SZ1, SZ2, SZ3
+CONSTANTS PI, PC, PCS, PFS, PMIN, PPRICE, FUND, GAUGE0, H0, Prices, MaxFiles, SZ1, SZ2, SZ3, GAUGE2, Rels2
 \* the size of a file is a function of its content label (one label = one byte string)
 SizeOf(m) == CASE m = "m1" -> SZ1 [] m = "m2" -> SZ2 [] OTHER -> SZ3
 
@@ -10,6 +10,7 @@ Init == /\ files = <<>> /\ filesO = <<>> /\ proofs = <<>> /\ providers = <<>> /\
         /\ attest = <<>> /\ report = <<>>
         /\ bal = [a \in Accts \cup {MODS, MODC, GAUGES, "other"} |->
                     IF a \in Accts THEN FUND ELSE IF a = GAUGES THEN GAUGE0 ELSE 0]
+        /\ bal2 = [a \in Accts \cup {MODS, MODC, GAUGES, "other"} |-> IF a = GAUGES THEN GAUGE2 ELSE 0]
         /\ height = H0
         /\ par = [I |-> PI, C |-> PC, cs |-> PCS, fs |-> PFS, min |-> PMIN, price |-> PPRICE]
         /\ earned = {} /\ ever = {} /\ signers = <<>> /\ missed = {} /\ pwin = <<>>
@@ -24,7 +25,7 @@ Attempts(p, fid) == LET c == Cur(p, fid) IN
     [tp |-> c + 1, c |-> c, claim |-> "valid"], [tp |-> c, c |-> c, claim |-> "junk"] }
 ExactPay(R) == LET h == height + 1 IN
   [p \in Provers |-> IF (height + 1) % par.C = 0 /\ p \in AllListed THEN Share(R, Credit(p, h), TotalListed) ELSE 0]
-BlockMC == \E R \in Rels : (IF (height + 1) % par.C = 0 THEN R <= bal[GAUGES] ELSE R = 0) /\ Block(R, ExactPay(R))
+BlockMC == \E R \in Rels, R2 \in Rels2 : (IF (height + 1) % par.C = 0 THEN R <= bal[GAUGES] /\ R2 <= bal2[GAUGES] ELSE R = 0 /\ R2 = 0) /\ Block(R, ExactPay(R), R2, ExactPay(R2))
 
 NextFiles ==
   \/ Cardinality(DOMAIN files) < MaxFiles /\ \E o \in Owners, m \in Merkles, mp \in Reps : PostFile(o, m, SizeOf(m), mp)
